@@ -53,7 +53,7 @@ type probe struct {
 	name  string
 	data  []byte
 	close bool
-	times int // how often the probe is repeated from the same source (default 1)
+	times int  // how often the probe is repeated from the same source (default 1)
 	pause bool // let 50 ms of virtual time pass before this probe is sent
 }
 
